@@ -18,7 +18,9 @@ import (
 	"strconv"
 	"strings"
 	"sync"
+	"syscall"
 	"time"
+	"unsafe"
 
 	"verif/internal/core"
 )
@@ -384,4 +386,20 @@ func (v *bridgeVerifier) SHA() string { return hex.EncodeToString(v.sum.Sum(nil)
 func bridgeIsTimeout(err error) bool {
 	ne, ok := err.(net.Error)
 	return ok && ne.Timeout()
+}
+
+// bridgeUnread returns the number of received bytes not yet read from c
+// (FIONREAD), or -1.
+func bridgeUnread(c *net.TCPConn) int {
+	rc, err := c.SyscallConn()
+	if err != nil {
+		return -1
+	}
+	n := int32(-1)
+	rc.Control(func(fd uintptr) {
+		if _, _, e := syscall.Syscall(syscall.SYS_IOCTL, fd, 0x541B /* FIONREAD */, uintptr(unsafe.Pointer(&n))); e != 0 {
+			n = -1
+		}
+	})
+	return int(n)
 }
